@@ -7,7 +7,7 @@ the `#pragma once` arm; /repo/main.c: how `include_paths` is assembled (-I in or
 system directories, -idirafter), `-D and -U` (applied while the command line is scanned), `-include`
 (files tokenized before the main file).
 
-The file system is a finite table `path ↦ lines` (`FS`); `file_exists` is membership.  Paths are
+The file system is a function `path ↦ lines` (`FS`); `file_exists` is definedness.  Paths are
 the strings chibicc builds (`format("%s/%s", dir, name)`), compared as strings like the C code does
 (the hash maps are keyed by the path string, so two spellings of one file are two keys).
 
@@ -127,8 +127,16 @@ def ILine.toLine : ILine ε β → Line ε β
   | .c l => l
   | _ => .plain .other
 
-/-- the file table -/
-abbrev FS (ε β : Type) := List (String × List (ILine ε β))
+/-- the file system: path ↦ lines of the file (`none`: no such file) -/
+abbrev FS (ε β : Type) := String → Option (List (ILine ε β))
+
+def FS.get (fs : FS ε β) (p : String) : Option (List (ILine ε β)) := fs p
+/-- `file_exists` -/
+def FS.has (fs : FS ε β) (p : String) : Bool := (fs p).isSome
+
+/-- a file system given as a finite table, paths compared literally -/
+def FS.ofTable (t : List (String × List (ILine ε β))) : FS ε β :=
+  fun p => (t.find? (·.1 == p)).map (·.2)
 
 /-- what the operating system does with a path: `.` and empty components vanish, `x/..` cancels
     (the generated trees have no symbolic links).  Only the *file system* normalises; chibicc's own
@@ -146,9 +154,9 @@ def normComponents : List String → List String → List String
 def normPath (p : String) : String :=
   (if isAbs p then "/" else "") ++ "/".intercalate (normComponents [] (p.splitOn "/"))
 
-def FS.get (fs : FS ε β) (p : String) : Option (List (ILine ε β)) := (fs.find? (·.1 == normPath p)).map (·.2)
-/-- `file_exists` -/
-def FS.has (fs : FS ε β) (p : String) : Bool := fs.any (·.1 == normPath p)
+/-- a file system given as a table of normalised paths; lookups normalise the path first (driver) -/
+def FS.ofTableNorm (t : List (String × List (ILine ε β))) : FS ε β :=
+  fun p => FS.ofTable t (normPath p)
 
 /-- state of preprocess2 with includes -/
 structure IState (β : Type) where
